@@ -28,6 +28,8 @@ import props                     # noqa: E402
 import audit                     # noqa: E402
 
 REPO = os.environ.get("VERIF_REPO", "/repo")
+# developer runs against a mutated copy write their evidence / replays elsewhere
+OUT = os.environ.get("VERIF_OUT", HERE)
 
 
 def load_known():
@@ -91,7 +93,7 @@ def main():
     undecided = []
 
     workdir = tempfile.mkdtemp(prefix="corgi_verif_v_", dir=os.environ.get("VERIF_SCRATCH", "/tmp"))
-    replay_dir = os.path.join(HERE, "replays", args.prop)
+    replay_dir = os.path.join(OUT, "replays", args.prop)
     try:
         # ---------------------------------------------------------------- audits (C08/C12 ...)
         for a in P.get("audits", []):
@@ -269,8 +271,8 @@ def write_evidence(args, P, results, violations, undecided, wall, seed):
         "assumptions": props.TRUSTED_BASE + P.get("trusted_extra", []),
         "wall_s": round(wall, 1), "violations": len(violations),
     }
-    os.makedirs(os.path.join(HERE, "evidence"), exist_ok=True)
-    json.dump(ev, open(os.path.join(HERE, "evidence", args.prop + ".json"), "w"), indent=1)
+    os.makedirs(os.path.join(OUT, "evidence"), exist_ok=True)
+    json.dump(ev, open(os.path.join(OUT, "evidence", args.prop + ".json"), "w"), indent=1)
 
 
 if __name__ == "__main__":
